@@ -242,6 +242,31 @@ func (q *Queue[T]) waitForNew(ctx context.Context) error {
 	return nil
 }
 
+// caller must hold the lock. Blocks until the entry at pos has a
+// successor: either a new entry was linked after it, or, if pos was
+// removed and the queue drained in the meantime, the queue has items
+// again.
+func (q *Queue[T]) unsafeWaitForNext(ctx context.Context, pos *entry[T]) error {
+	// when the function returns wake all other waiters.
+	ctx, cancel := context.WithCancel(ctx)
+	go func() { <-ctx.Done(); q.mu.Lock(); defer q.mu.Unlock(); q.nupdates.Broadcast() }()
+	defer cancel()
+
+	for pos.link == nil && (pos == q.back || q.front.link == nil) {
+		if q.closed {
+			return ErrQueueClosed
+		}
+		select {
+		case <-ctx.Done():
+			return ctx.Err()
+		default:
+			q.nupdates.Wait()
+		}
+	}
+
+	return nil
+}
+
 // Close closes the queue. After closing, any further Add calls will report an
 // error, but items that were added to the queue prior to closing will still be
 // available for Remove and Wait. Wait will report an error without blocking if
@@ -354,39 +379,36 @@ func (q *Queue[T]) Distributor() Distributor[T] {
 func (q *Queue[T]) Producer() fun.Producer[T] {
 	var next *entry[T]
 	return func(ctx context.Context) (o T, _ error) {
+		q.mu.Lock()
+		defer q.mu.Unlock()
+
 		if next == nil {
-			q.mu.Lock()
 			next = q.front
-			q.mu.Unlock()
 		}
 
-		q.mu.Lock()
+		for next.link == nil {
+			if next != q.back {
+				// the entry we last saw was removed and
+				// the queue drained: everything queued
+				// now is unseen, start over at the front.
+				next = q.front
+				if next.link != nil {
+					break
+				}
+			}
+			if q.closed {
+				return o, io.EOF
+			}
+			if err := q.unsafeWaitForNext(ctx, next); err != nil {
+				return o, err
+			}
+		}
+
 		if next.link == q.front {
-			q.mu.Unlock()
 			return o, io.EOF
 		}
 
-		if next.link != nil {
-			next = next.link
-			q.mu.Unlock()
-		} else if next.link == nil {
-			if q.closed {
-				q.mu.Unlock()
-				return o, io.EOF
-			}
-
-			q.mu.Unlock()
-			if err := q.waitForNew(ctx); err != nil {
-				return o, err
-			}
-
-			q.mu.Lock()
-			if next.link != q.front {
-				next = next.link
-			}
-			q.mu.Unlock()
-		}
-
+		next = next.link
 		return next.item, nil
 	}
 }
